@@ -21,7 +21,7 @@ RULE = (
     "Dec values {+-pi/2,+-(pi/2-ulp),+-(pi/2-1e-9),+-1e-9,+-1e-16,0,2 generic}: all points, all ordered "
     "pairs; generic lattice 128x64 (irrational offsets, low digits moved by VERIF_SEED) with exact antipode "
     "and near-antipodes at 1e-12,1e-9,1e-6; distance alphabet incl. 0, denormal, pi-ulp, pi; all point "
-    "sets of size 1-3 of a 15-point alphabet (3 points with RA outside [0,2pi)), weighted/unweighted; means of 2^20-1 and 2^20+3 (| 2^21+5, 3*2^20+1) points in two uneven clusters; histories {to_3d, distance, mean} -> in-place edit through {adopted buffer, .data, sliced views} -> {to_3d, distance, mean} equal to a fresh object of the current values. Bounds: |distance error| <= min(1e-7, "
+    "sets of size 1-3 of a 15-point alphabet (3 points with RA outside [0,2pi)), weighted/unweighted; means of 2^20-1 and 2^20+3 (| 2^21+5, 3*2^20+1) points in two uneven clusters; round trips of sets of exactly 1..5 points; histories {to_3d, distance, mean} -> in-place edit through {adopted buffer, .data, sliced views} -> {to_3d, distance, mean} equal to a fresh object of the current values. Bounds: |distance error| <= min(1e-7, "
     "1e-15*(1+2/(pi-theta))) (conditioning of the chord formula), never raises; round trips within 1e-7 (1e-12 away from RA=0/pi singular "
     "conditioning), RA in [0,2pi); unit norm 4e-16; conversions monotone. Non-trivial: a pair/point "
     "involving a special value or an antipode. One case = one block of pairs (vectorised)."
@@ -64,6 +64,8 @@ def cases(tier, seed):
     out.append(dict(part="roundtrip", seed=seed))
     out.append(dict(part="chord"))
     out.append(dict(part="from3d"))
+    for n in (1, 2, 3, 4, 5):
+        out.append(dict(part="smallsets", n=n))
     pts12 = list(range(15))
     for k in (1, 2, 3):
         for combo in itertools.combinations(pts12, k):
@@ -331,6 +333,31 @@ def run_mean(case):
     return v, n > 0, n
 
 
+def run_smallsets(case):
+    """from_3d(to_3d(c)) and to_3d(from_3d(x)) for coordinate sets of exactly n points (array shapes (n, 2) / (n, 3))."""
+    from yaw import AngularCoordinates
+
+    n = case["n"]
+    v, count = [], 0
+    base = np.array([[0.3, 0.1], [1.2, -0.4], [4.0, 0.9], [5.9, -1.2], [2.2, 0.5], [3.3, -0.7], [0.9, 1.1]])
+    for start in range(len(base) - n + 1):
+        pts = base[start:start + n]
+        count += 1
+        try:
+            xyz = np.array(AngularCoordinates(pts).to_3d())
+            back = AngularCoordinates.from_3d(xyz)
+        except Exception as e:
+            v.append(viol(f"C14/smallsets/exception:{type(e).__name__}", f"{n} points: {yawx.exc_name(e)}"))
+            continue
+        want = np.column_stack([np.cos(pts[:, 0]) * np.cos(pts[:, 1]), np.sin(pts[:, 0]) * np.cos(pts[:, 1]), np.sin(pts[:, 1])])
+        if xyz.shape != (n, 3) or not np.allclose(xyz, want, rtol=0, atol=1e-15):
+            v.append(viol("C14/smallsets/to_3d", f"to_3d of {n} points has shape {xyz.shape} / wrong values"))
+        elif len(back) != n or not np.allclose(back.data, pts, rtol=0, atol=1e-12):
+            v.append(viol("C14/smallsets/from_3d", f"from_3d(to_3d(c)) != c for a set of exactly {n} points: "
+                          f"{np.asarray(back.data).tolist()} vs {pts.tolist()}"))
+    return v, True, count
+
+
 def run_bigmean(case):
     from yaw import AngularCoordinates
 
@@ -401,7 +428,7 @@ def run_history(case):
 
 def run_case(case):
     fn = dict(pairs=run_pairs, antipodes=run_antipodes, roundtrip=run_roundtrip, chord=run_chord,
-              mean=run_mean, from3d=run_from3d, bigmean=run_bigmean, history=run_history)[case["part"]]
+              mean=run_mean, from3d=run_from3d, bigmean=run_bigmean, history=run_history, smallsets=run_smallsets)[case["part"]]
     viols, nontrivial, n = fn(case)
     res = dict(nontrivial=bool(nontrivial), key=case, counters=dict(inputs_evaluated=n))
     if viols:
